@@ -163,7 +163,7 @@ def run_lin(case):
         if skind != "gauss":
             sig += "|" + skind
         if case.get("mag", 1) != 1:
-            x, y = x * cdt(case["mag"]), y * cdt(case["mag"])
+            x, y = np.asarray(x * cdt(case["mag"])), np.asarray(y * cdt(case["mag"]))
             sig += "|mag%g" % case["mag"]
         if fort and len(ish) >= 2:
             x, y = np.asfortranarray(x), np.asfortranarray(y)      # memory layout variant
